@@ -8,6 +8,7 @@ take/tee children.  H8: a counting probe on the source iterator (evidence only).
 from __future__ import annotations
 
 import itertools
+import time
 
 from rt import impl
 from rt.jsonval import h
@@ -216,6 +217,7 @@ def plan(tier, seed):
         for first in CHAINABLE:
             specs.append({"kind": "exhaustive", "n": n, "first": first, "maxlen": maxlen})
     specs.append({"kind": "shared-compiled", "count": 1500 if tier == "quick" else 40000})
+    specs.append({"kind": "threads", "rounds": 60 if tier == "quick" else 600})
     for _ in range(6 if tier == "quick" else 16):
         specs.append({"kind": "sampled", "count": 4000 if tier == "quick" else 150000})
     return specs
@@ -253,6 +255,63 @@ def run(spec, ctx):
 
     env = jsonpath.DEFAULT_ENV
     r = ctx.rng
+    if spec["kind"] == "threads":
+        # batches split off with take() (and tee() children) are handed to worker threads that read them while the main
+        # thread goes on splitting and reading the original query (yields injected in fluent_api.py / selectors.py): every
+        # batch must be exactly its slice of the match list
+        import threading
+
+        from rt.threads import stress
+
+        for _round in range(spec["rounds"]):
+            n = r.randint(4, 30)
+            doc = {"items": [{"id": i, "ok": True} for i in range(n)]}
+            want = list(range(n))
+            sizes = [r.randint(0, 4) for _ in range(8)]
+            q = jsonpath.query(r.choice(["$.items[?@.ok].id", "$.items[*].id", "$..id"]), doc)
+            batches, errors = [], []
+
+            def worker(wid, rr):
+                # thread 0 plays the producer: it splits batches off; the others read whatever batch they are given
+                try:
+                    if wid == 0:
+                        pos = 0
+                        for k in sizes:
+                            b = q.take(k)
+                            batches.append((b, want[pos:pos + k], "take(%d) at %d" % (k, pos)))
+                            pos += k
+                        batches.append((q, want[pos:], "the rest"))
+                        batches.append(None)
+                    else:
+                        seen = 0
+                        while True:
+                            while seen >= len(batches):
+                                time.sleep(0)
+                            item = batches[seen]
+                            if item is None:
+                                return
+                            seen += 1
+                            if seen % 3 == wid % 3:
+                                b, exp, label = item
+                                got = list(b.values())
+                                if got != exp:
+                                    errors.append({"batch": label, "got": got, "expected": exp})
+                except Exception as e:  # noqa: BLE001
+                    errors.append({"thread": wid, "raised": "%s: %s" % (type(e).__name__, e)})
+
+            st = stress(worker, nthreads=4, files=("fluent_api.py", "selectors.py", "path.py"), seed=r.random(), prob=0.2, join_timeout=30)
+            ctx.evaluation(len(sizes) + 1)
+            ctx.count("batches_read_by_other_threads", len(sizes) + 1)
+            ctx.count("yields_injected", st["yields"])
+            ctx.cell("thread_interleaving_signatures", st["signature"])
+            if st["timed_out"]:
+                ctx.count("thread_round_timed_out")
+                continue
+            for e in errors[:2]:
+                ctx.violation("batch-read-in-another-thread-is-not-its-slice", {"kind": "threads"}, e)
+            if errors:
+                return
+        return
     if spec["kind"] == "shared-compiled":
         # queries obtained from ONE compiled filter path (whose filters read `$` and `_`), read a few matches at a time
         # while the same compiled path is evaluated over another document and context in between
@@ -390,6 +449,9 @@ def replay(case, ctx):
 
     import jsonpath
 
+    if case.get("kind") == "threads":
+        run({"kind": "threads", "rounds": 200}, ctx)
+        return
     if case.get("kind") == "key-twins":
         run({"kind": "shared-compiled", "count": 0}, ctx)
         return
